@@ -5,7 +5,7 @@ import ast
 from typing import List, Optional, Tuple
 
 from .. import norm, ratform
-from ..model import own_nodes, stmt_text, parent
+from ..model import own_nodes, stmt_text, parent, AnalysisError
 from ..util import cfg_of, calls_named, single_defs, package_calls
 from .common import *
 from . import pool
@@ -27,6 +27,15 @@ USAGE_FORMS = ("{c}.get_current_memory_usage()", "{c}._current_memory")
 
 def killer(P):
     return P.fn(RP, "ResourcePool._run_out_of_memory_killer")
+
+
+def killer_funcs(P):
+    """All ResourcePool methods that call <container>.kill(...): the OOM killer, wherever its passes live."""
+    c = P.cls(RP, "ResourcePool")
+    fs = [m for m in c.methods.values() if any(isinstance(x, ast.Call) and isinstance(x.func, ast.Attribute) and x.func.attr == "kill" for x in own_nodes(m.node))]
+    if not fs:
+        raise AnalysisError("no ResourcePool method calls Container.kill: the OOM killer was not found")
+    return sorted(fs, key=lambda m: m.node.lineno)
 
 
 def kill_sites(f) -> List[ast.Call]:
@@ -71,20 +80,41 @@ def _key_index(key: ast.expr) -> Optional[Tuple[int, bool]]:
 
 
 def run(ctx):
+    _run(ctx)
+    # (6) the killer's input is the real usage: the pool counter is re-summed whenever a container leaves the active list (C04#3)
+    from . import c04, c08
+    c04.check_invariant(c08._Renumber(ctx, {3: 6, 4: 6}))
+
+
+def _run(ctx):
     P = ctx.P
-    f = killer(P)
+    fs = killer_funcs(P)
+    total = 0
+    pool_level = 0
+    for f in fs:
+        g = cfg_of(f)
+        a, b, c = classify_kills(f, g)
+        total += len(a) + len(b) + len(c)
+        pool_level += len(b)
+    ctx.count_min("kill sites in the OOM killer", total, 2)
+    for f in fs:
+        _run_one(ctx, f, last=(f is fs[-1]), pool_level_total=pool_level)
+
+
+def _run_one(ctx, f, last, pool_level_total):
+    P = ctx.P
     ctx.touch(f)
     g = cfg_of(f)            # conditions with single-definition locals substituted
     env = single_defs(f)
     s1, s2, bad = classify_kills(f, g)
-    ctx.count_min("kill sites in the OOM killer", len(s1) + len(s2) + len(bad), 2)
     for k in bad:
         ctx.ob(3, "K2", "every kill is justified: the victim exceeds its own allocation, or the pool's live usage exceeds its capacity", False, f, k,
                detail=f"facts at the kill: {sorted(norm.show(x) for x in g.facts_at(k))}")
     for k in s2:
         ctx.ob(3, "K2", "a pool-level kill happens only while consumed_ram_gb > max_ram_pool, re-tested on the live counters in the same iteration "
                "(killing stops as soon as the remaining usage fits)", True, f, k, detail=f"facts at the kill: {sorted(norm.show(x) for x in g.facts_at(k))}")
-    ctx.ob(3, "K2", "there is a pool-level kill loop", len(s2) >= 1, f, s2[0] if s2 else f.node, construct="pool-level kill", detail=f"{len(s2)} site(s)")
+    if last:
+        ctx.ob(3, "K2", "there is a pool-level kill loop", pool_level_total >= 1, f, s2[0] if s2 else f.node, construct="pool-level kill", detail=f"{pool_level_total} site(s)")
     # (2) ordering
     for k in s2:
         lp = enclosing_for(k, f.node)
